@@ -25,6 +25,14 @@ equal to the live source (`CodeOK`); the recovering call `f(a)` may use any argu
 recovering call is only covered by the kill sweep of the harness.) `unpickle p = error` for strict prefixes `p` (C14's
 contract) turned out not to be needed: no torn result ever has a final name (`final_name_complete`).
 
+Generations (section "Generations and validity stamps" at the end): values carry the generation of the execution that
+produced them, `metadata.json` the generation of its time stamp; the theorems above say "a value of the live source for
+the right argument, of SOME generation" (`∃ g, … = .ok ⟨π.ver, a, g⟩`); that the generation is recent enough under an
+expiring callback (`since g`) is `expiry_recovery_partial` / `stamp_not_newer_than_value_partial` (finite family, every
+`k`, every torn length) and, for every configuration and directory, `entry_without_metadata_is_not_valid_under_a_callback`,
+`accepted_under_since_has_recent_stamp`, `accepted_under_since_has_recent_value`; the seeded orders are refuted by
+`metadata_first_counterexample`, `skip_callback_without_metadata_counterexample`.
+
 What is false (witnesses below, replayed on the real code by harness/props/c05.py):
 * before the repairs: `crash_recovery` fails when `expires_after` finds `output.pkl` without `metadata.json`
   (`old_code_F8_witness`) and when `func_code.py` is torn inside its first line (`old_code_F9_witness`);
@@ -48,8 +56,8 @@ def CacheOK (π : Par) (fs : FS) : Prop := Inv π false fs ∧ TrustK π false f
 
 /-- final names hold complete content -/
 def FinalComplete (π : Par) (fs : FS) : Prop :=
-  (∀ a d, fs.dataAt (pOut a) = some d → ∃ v, d = π.cd.pickle ⟨v, a⟩) ∧
-  (∀ a d, fs.dataAt (pMeta a) = some d → d = π.cd.metaText)
+  (∀ a d, fs.dataAt (pOut a) = some d → ∃ v g, d = π.cd.pickle ⟨v, a, g⟩) ∧
+  (∀ a d, fs.dataAt (pMeta a) = some d → ∃ g, d = π.cd.metaText g)
 
 inductive Workload
   | call (c : Cfg) (a : Nat)
@@ -114,20 +122,21 @@ theorem final_name_complete {me : Nat} (hco : CodeOK π) (hcd : CodecOK π.cd) (
   have hi := (crash_state_ok hco hcd w hw h0 k torn).1
   refine ⟨fun a d hd => ?_, fun a d hd => ?_⟩
   · obtain ⟨i, hi'⟩ := dataAt_eq hd
-    obtain ⟨v, hv, _⟩ := hi.out a i d hi'
-    exact ⟨v, hv⟩
+    obtain ⟨v, g, hv, _⟩ := hi.out a i d hi'
+    exact ⟨v, g, hv⟩
   · obtain ⟨i, hi'⟩ := dataAt_eq hd
     exact hi.metaOk a i d hi'
 
-/-- a fresh process making a call on any `CrashOK` directory returns `f(a)` -/
+/-- a fresh process making a call on any `CrashOK` directory returns `f(a)` (a value of the live source for the argument
+`a`, of some generation — which generations are acceptable is the business of `expiry_recovery` below) -/
 theorem recover_correct {me : Nat} (hcd : CodecOK π.cd) (c : Cfg) (hc : CfgOK π me c) (hsh : c.shelve = false) (a : Nat)
-    {fs : FS} (h : CrashOK π fs) : (run (callProc c a) fs).1 = .ok ⟨π.ver, a⟩ := by
+    {fs : FS} (h : CrashOK π fs) : ∃ g, (run (callProc c a) fs).1 = .ok ⟨π.ver, a, g⟩ := by
   obtain ⟨tr, hr⟩ := runs_solo (callProc c a) fs
   have hs := callProc_sat (strong := False) (alone (π := π) false .calls me) c hc a hcd
   have := (hs.sound hr (fun _ _ _ hR => hR.elim) ⟨h.1, h.2, fun hf => hf.elim⟩).2
   revert this
   cases (run (callProc c a) fs).1 with
-  | ok v => intro h; simp only [OutSat] at h; rw [h.2.2 hsh]
+  | ok v => intro h; simp only [OutSat] at h; obtain ⟨g, hg⟩ := h.2.2 hsh; exact ⟨g, by rw [hg]⟩
   | raised e =>
     intro h
     simp only [OutSat, EC] at h
@@ -140,7 +149,7 @@ process (any argument `a`, any validation callback, e.g. `expires_after`) return
 theorem crash_recovery {me me' : Nat} (hco : CodeOK π) (hcd : CodecOK π.cd) (w : Workload) (hw : w.OK π me)
     {fs : FS} (h0 : CacheOK π fs) (k : Nat) (torn : Option Nat)
     (c : Cfg) (hc : CfgOK π me' c) (hsh : c.shelve = false) (a : Nat) :
-    (run (callProc c a) (crash k torn w.prog fs)).1 = .ok ⟨π.ver, a⟩ :=
+    ∃ g, (run (callProc c a) (crash k torn w.prog fs)).1 = .ok ⟨π.ver, a, g⟩ :=
   recover_correct hcd c hc hsh a (crash_state_ok hco hcd w hw h0 k torn)
 
 /-! ## After the recovery
@@ -180,10 +189,15 @@ def laterCalls : List (Cfg × Nat) → FS → List (Outcome Val) × FS
     let y := laterCalls r x.2
     (x.1 :: y.1, y.2)
 
+/-- an outcome without the generation of the value: (source version, argument) -/
+def noGen : Outcome Val → Outcome (Nat × Nat)
+  | .ok v => .ok (v.ver, v.arg)
+  | .raised e => .raised e
+
 /-- From a directory nobody was killed in, any sequence of calls by fresh processes returns the right values. -/
 theorem calls_correct {me : Nat} (hcd : CodecOK π.cd) :
     ∀ (l : List (Cfg × Nat)) (fs : FS), (∀ x ∈ l, CfgOK π me x.1 ∧ x.1.shelve = false) → CacheOK π fs →
-      (laterCalls l fs).1 = l.map fun x => .ok ⟨π.ver, x.2⟩ := by
+      (laterCalls l fs).1.map noGen = l.map fun x => .ok (π.ver, x.2) := by
   intro l
   induction l with
   | nil => intro fs _ _; rfl
@@ -192,8 +206,10 @@ theorem calls_correct {me : Nat} (hcd : CodecOK π.cd) :
     obtain ⟨c, a⟩ := x
     have hx := hl (c, a) List.mem_cons_self
     simp only [laterCalls, List.map_cons]
-    rw [recover_correct hcd c hx.1 hx.2 a (cacheOK_crashOK h)]
+    obtain ⟨g, hg⟩ := recover_correct hcd c hx.1 hx.2 a (cacheOK_crashOK h)
+    rw [hg]
     rw [ih _ (fun y hy => hl y (List.mem_cons_of_mem _ hy)) (recover_keeps_cacheOK hcd c hx.1 hx.2 a h)]
+    rfl
 
 /-- Crash states of a workload started in a directory whose results are all of the live source (every workload but the
 call after a source change) are again such directories. -/
@@ -208,15 +224,15 @@ call — any number of them, any arguments — returns the right value. -/
 theorem later_calls_correct_partial {me me' : Nat} (hcd : CodecOK π.cd) (w : Workload) (hw : w.OK π me)
     {fs : FS} (h0 : Inv π true fs) (k : Nat) (torn : Option Nat)
     (l : List (Cfg × Nat)) (hl : ∀ x ∈ l, CfgOK π me' x.1 ∧ x.1.shelve = false) :
-    (laterCalls l (crash k torn w.prog fs)).1 = l.map fun x => .ok ⟨π.ver, x.2⟩ :=
+    (laterCalls l (crash k torn w.prog fs)).1.map noGen = l.map fun x => .ok (π.ver, x.2) :=
   calls_correct hcd l _ hl (cacheOK_of_live (crash_state_live hcd w hw h0 k torn))
 
 /-- **recovery_idempotent_partial.** From a directory nobody was killed in, the recovering call returns `f(a)` and leaves
 such a directory again (so making it twice, or any number of times, changes nothing about correctness). -/
 theorem recovery_idempotent_partial {me : Nat} (hcd : CodecOK π.cd) (c : Cfg) (hc : CfgOK π me c) (hsh : c.shelve = false)
     (a : Nat) {fs : FS} (h : CacheOK π fs) :
-    (run (callProc c a) fs).1 = .ok ⟨π.ver, a⟩ ∧ CacheOK π (run (callProc c a) fs).2 ∧
-    (run (callProc c a) (run (callProc c a) fs).2).1 = .ok ⟨π.ver, a⟩ :=
+    (∃ g, (run (callProc c a) fs).1 = .ok ⟨π.ver, a, g⟩) ∧ CacheOK π (run (callProc c a) fs).2 ∧
+    ∃ g, (run (callProc c a) (run (callProc c a) fs).2).1 = .ok ⟨π.ver, a, g⟩ :=
   ⟨recover_correct hcd c hc hsh a (cacheOK_crashOK h), recover_keeps_cacheOK hcd c hc hsh a h,
    recover_correct hcd c hc hsh a (cacheOK_crashOK (recover_keeps_cacheOK hcd c hc hsh a h))⟩
 
@@ -244,7 +260,7 @@ directory and is killed after 11 system calls — `func_code.py` is unlinked, th
 call `f(3)` is right (`⟨1, 3⟩`), but the call `f(4)` after it returns version 0's value `⟨0, 4⟩`. -/
 theorem stale_after_crash_witness :
     (laterCalls [({ cfg1 with me := 2 }, 3), ({ cfg1 with me := 3 }, 4)]
-      (crash 11 none (callProc { cfg1 with rank := rankW } 3) fsOld)).1 = [.ok ⟨1, 3⟩, .ok ⟨0, 4⟩] := by decide
+      (crash 11 none (callProc { cfg1 with rank := rankW } 3) fsOld)).1 = [.ok ⟨1, 3, 0⟩, .ok ⟨0, 4, 0⟩] := by decide
 
 /-- the crash point of F36, exactly: among the killed call's first 11 system calls none creates `func_code.py` … -/
 example : ((runLog (callProc { cfg1 with rank := rankW } 3) fsOld).1.take 11).all
@@ -267,7 +283,7 @@ theorem old_code_F8_witness :
 
 /-- the repaired code recomputes -/
 example : (run (callProc { cfg0 with me := 1, callback := .expires true } 3)
-      (crash 25 none (callProc cfg0 3) FS.empty)).1 = .ok ⟨0, 3⟩ := by decide
+      (crash 25 none (callProc cfg0 3) FS.empty)).1 = .ok ⟨0, 3, 0⟩ := by decide
 
 /-- **old_code_F9_witness.** Code before fix F09: a cold call killed inside the write of `func_code.py` (15th call), 13
 bytes transferred (`# first line:`); the same call raises `ValueError`. -/
@@ -276,7 +292,7 @@ theorem old_code_F9_witness :
       (crash 15 (some 13) (callProc cfg0 3) FS.empty)).1 = .raised .valueError := by decide
 
 /-- the repaired code treats it as changed code and recomputes -/
-example : (run (callProc { cfg0 with me := 1 } 3) (crash 15 (some 13) (callProc cfg0 3) FS.empty)).1 = .ok ⟨0, 3⟩ := by
+example : (run (callProc { cfg0 with me := 1 } 3) (crash 15 (some 13) (callProc cfg0 3) FS.empty)).1 = .ok ⟨0, 3, 0⟩ := by
   decide
 
 /-! Non-vacuity of the hypotheses. -/
@@ -304,7 +320,7 @@ theorem inv_empty (π : Par) (s : Bool) : Inv π s FS.empty := by
 
 example : CacheOK πW FS.empty := cacheOK_of_live (inv_empty _ _)
 example : CodecOK πW.cd := cdW_ok
-example : CfgOK πW 0 cfg0 := ⟨rfl, rfl, rfl, rfl⟩
+example : CfgOK πW 0 cfg0 := ⟨rfl, rfl, rfl, rfl, rfl, rfl, rfl⟩
 
 open JoblibModel.StoreIO in
 /-- `CodeOK` for the concrete comparison `checkCodeImpl` and this source: no strict prefix of the stored text compares
@@ -319,5 +335,373 @@ example : CodeOK πW := by
   have hlen : (πW.cd.codeText πW.ver).length = 26 := by decide
   have all : ∀ m, m < 26 → πW.cd.checkCode πW.ver ((πW.cd.codeText πW.ver).take m) ≠ .same := by decide
   exact all n (by rw [hlen] at hlt; exact hlt)
+
+
+/-! ## Generations and validity stamps (expiry)
+
+The cached function is not pure: its value carries the GENERATION (`Val.gen`) of the execution that produced it, and
+`metadata.json` carries a STAMP — the generation in which `_persist_input` read `time.time()`. A validation callback
+`since g` (`expires_after` seen from a fixed instant) accepts an entry iff its stamp is `≥ g`. The property "a later
+call returns the correct value … including when `expires_after` is configured" then means: the value returned under
+`since g` is of a generation `≥ g` — an entry refreshed after its expiry must never look newer than the value it holds.
+
+Full statements (NOT proved in this generality; what is missing is said below):
+  `stamp_not_newer_than_value : CodeOK π → CodecOK π.cd → w.OK π me → CacheOK π fs → StampOK' π fs (no stamp or value
+     of a generation later than the workload's) → ∀ k torn a, stampLeValue π.cd (crash k torn w.prog fs) a`
+  `expiry_recovery : … → ∀ k torn, CfgOK π me' c → c.callback = .since g → g ≤ c.gen → c.shelve = false →
+     ∃ g', (run (callProc c a) (crash k torn w.prog fs)).1 = .ok ⟨π.ver, a, g'⟩ ∧ g ≤ g'`
+Missing for these: the rely/guarantee derivations of `Lemmas/StoreCall.lean` (`dumpItem_sat`, `storeMetadata_sat`,
+`safeWrite_sat`) establish `Inv` only; the stamp invariant additionally needs, at the `rename` that installs
+`metadata.json`, the program-order fact "`output.pkl` of this entry is absent or was installed by this very call"
+(`dump_item` swallows its exceptions, so this needs `dumpItem` to be shown to succeed, or to leave no `output.pkl`, in
+every `Inv` state), threaded through `mkdirp`/`safeWrite`. `crash_recovery` above already gives, for EVERY workload,
+initial directory, `k` and torn length: the recovering call does not raise and returns a value of the live source for
+the right argument (`∃ g, … = .ok ⟨π.ver, a, g⟩`); what the `_partial` theorems add — `g` is recent enough — is proved
+for the finite family `casesW` below (every `k`, every torn length), by evaluation of the model. General, for every
+configuration and directory: `entry_without_metadata_is_not_valid_under_a_callback`, and the step from the invariant
+to the recovery — `accepted_under_since_has_recent_stamp`, `accepted_under_since_has_recent_value`: wherever the stamp
+is not newer than the value, an entry accepted under `since g` holds a value of generation `≥ g`. -/
+
+/-- generation of the value `output.pkl` of entry `a` holds (if it loads) -/
+def outGen (cd : Codec) (fs : FS) (a : Nat) : Option Nat :=
+  (fs.dataAt (pOut a)).bind fun d => (cd.unpickle d).map (·.gen)
+
+/-- stamp of `metadata.json` of entry `a` (if it reads as JSON with a time) -/
+def metaStampOf (cd : Codec) (fs : FS) (a : Nat) : Option Nat := (fs.dataAt (pMeta a)).bind cd.metaStamp
+
+/-- the invariant: a readable stamp is not newer than the value it stands next to -/
+def stampLeValue (cd : Codec) (fs : FS) (a : Nat) : Bool :=
+  match metaStampOf cd fs a, outGen cd fs a with
+  | some s, some g => decide (s ≤ g)
+  | _, _ => true
+
+theorem run_bind_const_ne {α : Type} (p : Prog α) (fs : FS) :
+    (run (p.bind fun _ => Prog.ret false) fs).1 ≠ .ok true := by
+  rw [run_bind]
+  cases (run p fs).1 with
+  | ok a => simp [run]
+  | raised e => simp
+
+/-- `_check_previous_func_code` answers `True` only after two observing calls: the directory is unchanged -/
+theorem checkPrevious_true_noop (c : Cfg) (fs : FS) (h : (run (checkPrevious c) fs).1 = .ok true) :
+    (run (checkPrevious c) fs).2 = fs := by
+  unfold checkPrevious at h ⊢
+  have e1 := openr_noop pCode fs
+  simp only [run, e1] at h ⊢
+  generalize (apply (.openr pCode) fs).1 = r at h ⊢
+  cases r with
+  | fd i =>
+    simp only [run, apply] at h ⊢
+    cases hc : c.codec.checkCode c.ver (fs.readData pCode i) with
+    | same => rfl
+    | differs => rw [hc] at h; exact absurd h (run_bind_const_ne _ _)
+    | valueError =>
+      rw [hc] at h
+      simp only at h
+      by_cases hl : c.legacy = true
+      · rw [if_pos hl] at h; simp [run] at h
+      · rw [if_neg hl] at h; exact absurd h (run_bind_const_ne _ _)
+  | _ => exact absurd h (run_bind_const_ne _ _)
+
+/-- **entry_without_metadata_is_not_valid_under_a_callback.** For EVERY configuration of the code (any codec, any
+validation callback other than `None`, legacy or repaired `expires_after`, with or without `clear_item` of rejected
+entries) and EVERY directory: when `metadata.json` of the entry is missing, is a directory, or does not read as JSON
+with a time stamp, `_is_in_cache_and_valid` does not answer `True` — the entry's age is unknown, it is not served. (The
+seeded variant `skipCallbackWithoutMetadata` is the negation: `skip_callback_without_metadata_counterexample`.) -/
+theorem entry_without_metadata_is_not_valid_under_a_callback (c : Cfg) (a : Nat) (fs : FS)
+    (hcb : c.callback ≠ .none) (hskip : c.skipCallbackWithoutMetadata = false)
+    (hm : ∀ d, fs.dataAt (pMeta a) = some d → c.codec.metaStamp d = none) :
+    (run (isInCacheAndValid c a) fs).1 ≠ .ok true := by
+  intro h
+  unfold isInCacheAndValid at h
+  rw [run_bind] at h
+  cases hcp : (run (checkPrevious c) fs).1 with
+  | raised e => rw [hcp] at h; simp at h
+  | ok b =>
+    have hfs : b = true → (run (checkPrevious c) fs).2 = fs := fun hb => checkPrevious_true_noop c fs (by rw [hcp, hb])
+    rw [hcp] at h
+    cases b with
+    | false => simp [run] at h
+    | true =>
+      rw [hfs rfl] at h
+      simp only [Bool.not_true, Bool.false_eq_true, if_false, hskip, Bool.false_and] at h
+      rw [run_bind] at h
+      have ex : ∀ p, run (exists_ p) fs = (.ok ((apply (.stat p) fs).1 == .yes), fs) := fun p => rfl
+      rw [ex] at h
+      simp only at h
+      cases he : ((apply (.stat (pOut a)) fs).1 == .yes) with
+      | false => rw [he] at h; simp [run] at h
+      | true =>
+        rw [he] at h
+        simp only [Bool.not_true, Bool.false_eq_true, if_false] at h
+        rw [run_bind] at h
+        have gm : run (getMetadata c a) fs = (.ok ((fs.dataAt (pMeta a)).bind c.codec.metaStamp), fs) := by
+          unfold getMetadata FS.dataAt
+          simp only [run, apply]
+          cases hg : fs.get (pMeta a) with
+          | none => rfl
+          | some nd =>
+            cases nd with
+            | dir j => rfl
+            | file i d => simp [apply, run, FS.readData, hg]
+        rw [gm] at h
+        have hnone : (fs.dataAt (pMeta a)).bind c.codec.metaStamp = none := by
+          cases hd : fs.dataAt (pMeta a) with
+          | none => rfl
+          | some d => simpa using hm d hd
+        rw [hnone] at h
+        simp only at h
+        by_cases hl : c.legacy = true
+        · rw [if_pos hl] at h; simp [run] at h
+        · rw [if_neg hl] at h
+          by_cases hk : c.keepRejected = true
+          · rw [if_pos hk] at h; simp [run] at h
+          · rw [if_neg hk] at h; exact run_bind_const_ne _ _ h
+
+/-- **accepted_under_since_has_recent_stamp.** For EVERY configuration of the code with the callback `since g` and EVERY
+directory: if `_is_in_cache_and_valid` answers `True`, then `metadata.json` of the entry carries a readable stamp of a
+generation `≥ g` (and `_check_previous_func_code` changed nothing). -/
+theorem accepted_under_since_has_recent_stamp (c : Cfg) (a : Nat) (fs : FS) (g : Nat)
+    (hcb : c.callback = .since g) (hskip : c.skipCallbackWithoutMetadata = false)
+    (h : (run (isInCacheAndValid c a) fs).1 = .ok true) :
+    ∃ t, metaStampOf c.codec fs a = some t ∧ g ≤ t := by
+  have hne : c.callback ≠ .none := by rw [hcb]; intro e; cases e
+  unfold isInCacheAndValid at h
+  rw [run_bind] at h
+  cases hcp : (run (checkPrevious c) fs).1 with
+  | raised e => rw [hcp] at h; simp at h
+  | ok b =>
+    have hfs : b = true → (run (checkPrevious c) fs).2 = fs := fun hb => checkPrevious_true_noop c fs (by rw [hcp, hb])
+    rw [hcp] at h
+    cases b with
+    | false => simp [run] at h
+    | true =>
+      rw [hfs rfl] at h
+      simp only [Bool.not_true, Bool.false_eq_true, if_false, hskip, Bool.false_and] at h
+      rw [run_bind] at h
+      have ex : ∀ p, run (exists_ p) fs = (.ok ((apply (.stat p) fs).1 == .yes), fs) := fun p => rfl
+      rw [ex] at h
+      simp only at h
+      cases he : ((apply (.stat (pOut a)) fs).1 == .yes) with
+      | false => rw [he] at h; simp [run] at h
+      | true =>
+        rw [he] at h
+        simp only [Bool.not_true, Bool.false_eq_true, if_false] at h
+        rw [run_bind] at h
+        have gm : run (getMetadata c a) fs = (.ok ((fs.dataAt (pMeta a)).bind c.codec.metaStamp), fs) := by
+          unfold getMetadata FS.dataAt
+          simp only [run, apply]
+          cases hg : fs.get (pMeta a) with
+          | none => rfl
+          | some nd =>
+            cases nd with
+            | dir j => rfl
+            | file i d => simp [apply, run, FS.readData, hg]
+        rw [gm] at h
+        have rej : (run (if c.keepRejected = true then Prog.ret false else (clearItem c a).bind fun _ => Prog.ret false) fs).1
+            ≠ .ok true := by
+          by_cases hk : c.keepRejected = true
+          · rw [if_pos hk]; simp [run]
+          · rw [if_neg hk]; exact run_bind_const_ne _ _
+        unfold metaStampOf
+        cases hst : (fs.dataAt (pMeta a)).bind c.codec.metaStamp with
+        | none =>
+          rw [hst] at h
+          simp only at h
+          by_cases hl : c.legacy = true
+          · rw [if_pos hl] at h; simp [run] at h
+          · rw [if_neg hl] at h; exact absurd h rej
+        | some t =>
+          rw [hst] at h
+          simp only at h
+          by_cases hacc : c.callback.accepts t = true
+          · refine ⟨t, rfl, ?_⟩
+            rw [hcb] at hacc
+            simpa [Callback.accepts] using hacc
+          · rw [if_neg hacc] at h; exact absurd h rej
+
+/-- Hence, in EVERY directory in which the stamp of the entry is not newer than its value (`stampLeValue`), an entry that
+`_is_in_cache_and_valid` accepts under `since g` holds — if it loads — a value of a generation `≥ g`. -/
+theorem accepted_under_since_has_recent_value (c : Cfg) (a : Nat) (fs : FS) (g g' : Nat)
+    (hcb : c.callback = .since g) (hskip : c.skipCallbackWithoutMetadata = false)
+    (hinv : stampLeValue c.codec fs a = true) (hval : outGen c.codec fs a = some g')
+    (h : (run (isInCacheAndValid c a) fs).1 = .ok true) : g ≤ g' := by
+  obtain ⟨t, ht, hgt⟩ := accepted_under_since_has_recent_stamp c a fs g hcb hskip h
+  unfold stampLeValue at hinv
+  rw [ht, hval] at hinv
+  have : t ≤ g' := by simpa using hinv
+  omega
+/-! ### The finite family (the drivers' codec `cdW`; generations 0 and 1; threshold `since 1`) -/
+
+/-- a participant of generation `g` -/
+def cfgG (me g : Nat) : Cfg := { codec := cdW, me := me, ver := 0, gen := g }
+
+/-- the kernel lists `output.pkl` before `metadata.json` (the default rank lists them in creation order reversed) -/
+def rankOutFirst : Name → Nat
+  | .output => 0
+  | _ => 1
+
+/-- The cache after generation 0 computed and stored `f(3)` and `f(4)`. -/
+def fsGen0 : FS := (run (callProc (cfgG 1 0) 4) (run (callProc (cfgG 0 0) 3) FS.empty).2).2
+
+/-- the refresh: in generation 1, under "valid iff stamped in generation ≥ 1", the call `f(3)` -/
+def refreshCfg : Cfg := { cfgG 2 1 with callback := .since 1 }
+
+/-- a workload of the family: initial directory, program, live source version -/
+structure CaseW where
+  init : FS
+  w : Workload
+  ver : Nat := 0
+
+/-- The family: first calls (generation 0 and 1) in an empty directory; the refresh of an expired entry under both
+directory orders, as `__call__` and as `call_and_shelve(...).get()`; the refresh started in the directory a killed
+refresh left behind (new `output.pkl`, no `metadata.json`; and: entry removed); a warm call without callback in
+generation 1; a call after a source change in generation 1; `reduce_size` and `clear` in generation 1. -/
+def casesW : List CaseW := [
+  { init := FS.empty, w := .call (cfgG 2 0) 3 },
+  { init := FS.empty, w := .call { cfgG 2 1 with callback := .since 1 } 3 },
+  { init := fsGen0, w := .call refreshCfg 3 },
+  { init := fsGen0, w := .call { refreshCfg with rank := rankOutFirst } 3 },
+  { init := fsGen0, w := .call { refreshCfg with shelve := true } 3 },
+  { init := crash 22 none (callProc refreshCfg 3) fsGen0, w := .call { refreshCfg with me := 3 } 3 },
+  { init := crash 16 none (callProc refreshCfg 3) fsGen0, w := .call { refreshCfg with me := 3 } 3 },
+  { init := fsGen0, w := .call (cfgG 2 1) 3 },
+  { init := fsGen0, w := .call { cfgG 2 1 with ver := 1, callback := .since 1, rank := rankW } 3, ver := 1 },
+  { init := fsGen0, w := .reduce (cfgG 2 1) [4, 3] },
+  { init := fsGen0, w := .clear (cfgG 2 1) } ]
+
+/-- kill points: after `k` system calls, `k < 64` (no workload of the family makes more than 50: beyond its last call
+`crash` is the final state) -/
+def killsW : List Nat := List.range 64
+
+/-- torn lengths: the `k`-th call, when it is a write, transfers only its first `n` bytes, `n < 28` (the longest content
+written, `func_code.py`, has 26 bytes), or is not torn -/
+def tornsW : List (Option Nat) := none :: (List.range 28).map some
+
+/-- the recovering call: a fresh process of generation 1 under "valid iff stamped in generation ≥ 1" -/
+def recCfg (ver : Nat) : Cfg := { cfgG 9 1 with ver := ver, callback := .since 1 }
+
+/-! ### All crash states of a solo run, each once -/
+
+/-- the states a kill inside the call `o` can leave (a `write` cut to each strict prefix) -/
+def tornStates (o : Op) (fs : FS) : List FS :=
+  match o with
+  | .write p i d => (List.range d.length).map fun n => (apply (.write p i (d.take n)) fs).2
+  | _ => []
+
+/-- every state a kill can leave: before the first call, inside each call, after each call -/
+def crashStates {α : Type} : Prog α → FS → List FS
+  | .ret _, fs => [fs]
+  | .raise _, fs => [fs]
+  | .op o k, fs => fs :: (tornStates o fs ++ crashStates (k (apply o fs).1) (apply o fs).2)
+
+theorem self_mem_crashStates {α : Type} (p : Prog α) (fs : FS) : fs ∈ crashStates p fs := by
+  cases p <;> simp [crashStates]
+
+/-- `crashStates` is complete: the state after a kill at any point, torn or not, is one of them. -/
+theorem crash_mem_crashStates {α : Type} (k : Nat) (torn : Option Nat) :
+    ∀ (p : Prog α) (fs : FS), crash k torn p fs ∈ crashStates p fs := by
+  induction k with
+  | zero => intro p fs; cases p <;> exact self_mem_crashStates _ fs
+  | succ k ih =>
+    intro p fs
+    cases p with
+    | ret a => exact self_mem_crashStates _ fs
+    | raise e => exact self_mem_crashStates _ fs
+    | op o kont =>
+      have rest : ∀ s, s ∈ crashStates (kont (apply o fs).1) (apply o fs).2 → s ∈ crashStates (.op o kont) fs :=
+        fun s hs => List.mem_cons_of_mem _ (List.mem_append_right _ hs)
+      have whole : (apply o fs).2 ∈ crashStates (.op o kont) fs := rest _ (self_mem_crashStates _ _)
+      cases k with
+      | zero =>
+        cases torn with
+        | none => exact rest _ (ih _ _)
+        | some n =>
+          show (apply (tear n o) fs).2 ∈ _
+          rcases tear_eq n o with e | ⟨p, i, d, rfl, e⟩
+          · rw [e]; exact whole
+          · rw [e]
+            by_cases hn : n < d.length
+            · refine List.mem_cons_of_mem _ (List.mem_append_left _ ?_)
+              simp only [tornStates, List.mem_map, List.mem_range]
+              exact ⟨n, hn, rfl⟩
+            · rw [List.take_of_length_le (by omega)]; exact whole
+      | succ k' => exact rest _ (ih _ _)
+
+/-- the invariant on every crash state of the family (evaluation of the model) -/
+theorem stamp_sweep :
+    ∀ x ∈ casesW, ∀ s ∈ crashStates x.w.prog x.init, ∀ a ∈ [3, 4, 5], stampLeValue cdW s a = true := by decide +kernel
+
+/-- the recovering call on every crash state of the family (evaluation of the model) -/
+theorem expiry_sweep :
+    ∀ x ∈ casesW, ∀ s ∈ crashStates x.w.prog x.init, ∀ a ∈ [3, 4],
+      (run (callProc (recCfg x.ver) a) s).1 = .ok ⟨x.ver, a, 1⟩ := by decide +kernel
+
+/-- **stamp_not_newer_than_value_partial.** In EVERY crash state (every `k`, every torn length) of every workload of the
+family, for every entry: the stamp of `metadata.json`, when readable, is not newer than the generation of the value in
+the `output.pkl` next to it. (`output.pkl` is installed before `metadata.json`, and a rejected entry is removed before
+it is recomputed: that order is what makes it hold — `metadata_first_counterexample`.) -/
+theorem stamp_not_newer_than_value_partial (x : CaseW) (hx : x ∈ casesW) (k : Nat) (torn : Option Nat) (a : Nat)
+    (ha : a ∈ [3, 4, 5]) : stampLeValue cdW (crash k torn x.w.prog x.init) a = true :=
+  stamp_sweep x hx _ (crash_mem_crashStates k torn _ _) a ha
+
+/-- **expiry_recovery_partial.** After a kill at any point (every `k`, every torn length) of every workload of the family,
+the call `f(a)` made by a fresh process of generation 1 under the validation callback `since 1` does not raise and
+returns the value of generation 1 (`≥ 1`: never the expired generation-0 value), for the refreshed argument and for
+the bystander. Extends `crash_recovery` (which says: some generation) on this family. -/
+theorem expiry_recovery_partial (x : CaseW) (hx : x ∈ casesW) (k : Nat) (torn : Option Nat) (a : Nat) (ha : a ∈ [3, 4]) :
+    (run (callProc (recCfg x.ver) a) (crash k torn x.w.prog x.init)).1 = .ok ⟨x.ver, a, 1⟩ :=
+  expiry_sweep x hx _ (crash_mem_crashStates k torn _ _) a ha
+
+/-! ### The two seeded orders, as model variants -/
+
+/-- C05-r4-m1: `metadata.json` before `output.pkl`, rejected entries not removed -/
+def m1 (c : Cfg) : Cfg := { c with metadataFirst := true, keepRejected := true }
+/-- C05-r4-m2: the callback is not consulted when there is no metadata -/
+def m2 (c : Cfg) : Cfg := { c with skipCallbackWithoutMetadata := true }
+
+
+/-- **metadata_first_counterexample (C05-r4-m1).** With `metadata.json` stored before `output.pkl` and rejected entries
+not removed, the refresh of the expired entry `f(3)` killed after 14 system calls (the new `metadata.json` is installed,
+the new `output.pkl` is not) leaves the generation-1 stamp next to the generation-0 value: the invariant fails, and the
+recovering call of generation 1 under `since 1` accepts the entry and returns the EXPIRED value `⟨0, 3, 0⟩`. -/
+theorem metadata_first_counterexample :
+    stampLeValue cdW (crash 14 none (callProc (m1 refreshCfg) 3) fsGen0) 3 = false ∧
+    metaStampOf cdW (crash 14 none (callProc (m1 refreshCfg) 3) fsGen0) 3 = some 1 ∧
+    outGen cdW (crash 14 none (callProc (m1 refreshCfg) 3) fsGen0) 3 = some 0 ∧
+    (run (callProc (m1 (recCfg 0)) 3) (crash 14 none (callProc (m1 refreshCfg) 3) fsGen0)).1 = .ok ⟨0, 3, 0⟩ := by
+  decide +kernel
+
+/-- the 14th call of that refresh is the `rename` that installs `metadata.json`; no `output.pkl` is renamed before it -/
+example : (((runLog (callProc (m1 refreshCfg) 3) fsGen0).1.take 14).getLast?.map
+      fun x => ((match x.1 with | .rename _ q => q == pMeta 3 | _ => false), x.2)) = some (true, .ok) ∧
+    ((runLog (callProc (m1 refreshCfg) 3) fsGen0).1.take 14).all
+      (fun x => match x.1 with | .rename _ q => q != pOut 3 | _ => true) = true := by decide +kernel
+
+/-- each half of C05-r4-m1 alone is harmless for this refresh: every crash state recovers to the generation-1 value -/
+example : ∀ c ∈ [{ refreshCfg with metadataFirst := true }, { refreshCfg with keepRejected := true }],
+    ∀ s ∈ crashStates (callProc c 3) fsGen0, ∀ a ∈ [3, 4],
+      (run (callProc { recCfg 0 with metadataFirst := c.metadataFirst, keepRejected := c.keepRejected } a) s).1
+        = .ok ⟨0, a, 1⟩ := by decide +kernel
+
+/-- **skip_callback_without_metadata_counterexample (C05-r4-m2).** A first call in generation 0 killed after 22 system
+calls (`output.pkl` installed, `metadata.json` not yet): the entry has a value of generation 0 and no stamp. The code
+(`entry_without_metadata_is_not_valid_under_a_callback`) recomputes; the variant that does not consult the callback
+without metadata serves the generation-0 value to a call of generation 1 under `since 1` — and would for ever. -/
+theorem skip_callback_without_metadata_counterexample :
+    metaStampOf cdW (crash 22 none (callProc (m2 (cfgG 2 0)) 3) FS.empty) 3 = none ∧
+    outGen cdW (crash 22 none (callProc (m2 (cfgG 2 0)) 3) FS.empty) 3 = some 0 ∧
+    (run (callProc (m2 (recCfg 0)) 3) (crash 22 none (callProc (m2 (cfgG 2 0)) 3) FS.empty)).1 = .ok ⟨0, 3, 0⟩ ∧
+    (run (callProc (recCfg 0) 3) (crash 22 none (callProc (m2 (cfgG 2 0)) 3) FS.empty)).1 = .ok ⟨0, 3, 1⟩ := by
+  decide +kernel
+
+/-! Non-vacuity: the family's workloads satisfy the hypotheses of the general theorems (`Workload.OK`, `CacheOK` of the
+empty directory), and the refresh really goes through the expiry path: it removes the entry and stores generation 1. -/
+example : (Workload.call refreshCfg 3).OK πW 2 := ⟨rfl, rfl, rfl, rfl, rfl, rfl, rfl⟩
+example : (run (callProc refreshCfg 3) fsGen0).1 = .ok ⟨0, 3, 1⟩ ∧ steps (callProc refreshCfg 3) fsGen0 = 27 ∧
+    outGen cdW fsGen0 3 = some 0 ∧ metaStampOf cdW fsGen0 3 = some 0 ∧
+    outGen cdW (run (callProc refreshCfg 3) fsGen0).2 3 = some 1 ∧
+    metaStampOf cdW (run (callProc refreshCfg 3) fsGen0).2 3 = some 1 := by decide +kernel
+example : (crashStates (callProc refreshCfg 3) fsGen0).length = 41 := by decide +kernel
 
 end C05
